@@ -930,6 +930,7 @@ class ASTTransformer(object):
     visit_comprehension = _clone
     visit_excepthandler = _clone
     visit_arguments = _clone
+    visit_arg = _clone
     visit_keyword = _clone
     visit_alias = _clone
 
